@@ -520,6 +520,12 @@ func superviseCheck(p Property, tier string, seed uint64) int {
 			// lifted-budget run say so): exponential backtracking, not an endless loop or recursion, which
 			// the stuck-loop, compile and depth budgets catch on their own.
 			if strings.Count(string(co.stderr), "HEARTBEAT") >= 2 && !strings.Contains(string(co.stderr), "phase=compile") {
+				if p.ID() != "C03" {
+					// promptness is C03's subject: for the other properties a matcher that is still searching is not a verdict
+					merged.Count("slow_cases_still_backtracking_when_the_clock_ran_out")
+					fmt.Printf("slow case: phase %d case %d was still backtracking in the matcher after %v alone with the budgets lifted (C03's subject, not a violation of %s)\n", c.phase, c.idx, confirmEach, p.ID())
+					continue
+				}
 				if k := isKnown(p.ID(), "KF-C03-1"); k != nil {
 					merged.Known[k.ID]++
 					if _, ok := merged.KnownEx[k.ID]; !ok {
